@@ -41,14 +41,45 @@ claim("C19",
       "Decides that ToYmd/ToYmdHms are fixed-width zero-padded renderings of the receiver's fields in order, that digit/month/day name tables are injective and separator-free with the documented shape of the Chinese renderings, and that all 30 string-as-time comparisons compare equal rendering kinds. With the field ranges of C07 this yields parse-back and chronological sorting; a re-implementation without Sprintf is reported as undecided.",
       _TRUST, "DESIGN.md 4/C19")
 
-for _p, _why in {
-    "C01": "check under construction in this session (structural clauses planned, see DESIGN.md 4/C01)",
-    "C02": "numerical agreement between an astronomical series and external oracles over 16,800 lunations; no clause is visible in the shape of the code (DESIGN.md 3)",
-    "C03": "check under construction",
-    "C06": "check under construction", "C07": "check under construction",
-    "C10": "check under construction", "C12": "check under construction",
-    "C13": "check under construction", "C14": "check under construction",
-    "C16": "check under construction",
- "C20": "check under construction",
-}.items():
-    na(_p, _why)
+claim("C01",
+      "delegation-shape and symbolic-expression checks, effects-based constructor agreement, branch-fact reasoning for the civil-year anchoring of the term table",
+      "Decides the structural necessary conditions of the round trip only: lunar stepping is civil stepping followed by conversion; both constructors assign all 29 fields through the same builder and copy date/time fields like-to-like; the term table passed to the builder is provably that of the civil year; the day offsets of the two routes cancel. It does not decide that conversion round-trips on any date: the month table and the leap overrides are numeric data (a transposed LEAP_11 entry is invisible here).",
+      _TRUST, "DESIGN.md 4/C01")
+claim("C03",
+      "literal-table laws for the term names, parity arithmetic on selector indices, a finite decision table (144 abstract cases over 49 body paths) for the nearest-term search, typed comparisons, constant checks",
+      "Decides the order/lookup half of the property: table keys are in canonical order with the right aliases; Jie/Qi selectors use the right parity; 'previous term = latest at or before, next term = earliest strictly after' holds for every ordering of (term, now, best) on every path; day-level lookups compare year, month and day of the civil date; the UTC+8 shift is 1/3 day added once. That instants are roots of the solar longitude is numeric and not decided.",
+      _TRUST, "DESIGN.md 4/C03")
+claim("C06",
+      "structural predicates on the in-year filters, value-dependence and boundary-key checks on the month walk, effects-based immutability of published tables, shape of the override membership scan",
+      "Decides a thin structural part: the four in-year views filter by one predicate; month stepping depends on its step and re-anchors on the boundary month's own (year, month); nothing mutates a published year table; the LEAP_11/LEAP_12 membership scan visits every element and the tables are sorted and disjoint. Month counts, lengths and neighbour-table agreement are numeric and not decided.",
+      _TRUST, "DESIGN.md 4/C06")
+claim("C07",
+      "who-may-write inventory over go/ssa, interval analysis at the allocation sites, dominance of validation over allocation, funnel closure, cache publish-after-build protocol, path enumeration of the 1582 sites",
+      "Decides that objects are written only by their builders, that Solar fields are exactly [1,12]/[1,31]/[0,23]/[0,59]/[0,59] at the only allocation site with the month-length and 1582-gap rejections in place, that NewLunar validates before allocating, that every derived civil date funnels through NewSolar, and that a half-built year table is never handed out. Which lunar triples exist is numeric and not decided.",
+      _TRUST, "DESIGN.md 4/C07")
+claim("C10",
+      "dominance of the four pillar equalities over every append, phi-selector typing of the day-pillar variant, delegation shape, candidate-construction shape",
+      "Decides soundness and order shape: every returned moment was verified by forward conversion of that same moment against all four requested pillars under the requested day-boundary convention and against the base year; results are append-only in increasing candidate order; defaults delegate. Completeness is not decided (only one necessary condition of it: the day offset is measured from the term's civil-day pillar).",
+      _TRUST, "DESIGN.md 4/C10")
+claim("C12",
+      "boolean path enumeration for the direction, affine forms for the period chain, interval analysis of the start offset with the x-(x/c)*c idiom, if-chain extraction of the five-tigers offsets, declared-inputs check",
+      "Decides: forward <=> (yang == man) on all four cases and the matching choice of next/previous Jie; the conversion constants and the ranges months 0-11, days 0-29, hours 0-23; the affine relations that make periods consecutive ten-year spans aligned with the birth year; stepping in the fortune direction; the five-tigers table; every 60-cycle index in range; each pillar read is the declared one. The numeric start offset itself is not decided.",
+      _TRUST, "DESIGN.md 4/C12")
+claim("C13",
+      "declared-inputs check including pillar variants of auxiliary term-day objects, constant agreement with the stem table, shape of the interval tests",
+      "Decides inputs, constants and interval shapes: which terms, which day-stem variant and which lunar fields each counter reads; 81 = 9*9, geng = 6, wu = 4, +20/+10/+40, pentads of 5 capped at the third, 72 = 3*24; start <= day < start+81; middle period extended iff Liqiu strictly after; Chuxi iff |month| == 12, day >= 29 and the year changes tomorrow. That counters land on the right civil days is numeric.",
+      _TRUST, "DESIGN.md 4/C13")
+claim("C14",
+      "literal-table laws for the 18-byte records, scan/layout agreement, order-preserving-writer check on Fix, decision shape of workday and pay-rate logic, effects-based single-table check",
+      "Decides: record layout, key formats and builder offsets agree; the built-in table is well-formed and strictly sorted; the by-target lookup does not assume adjacency that the table lacks; Fix writes only by in-place replace or sorted insert; the workday walk steps one day, consults the stepped day's record and counts working days; all views read the one live table and none memoises. The effect of arbitrary Fix strings is run-time data and not decided.",
+      _TRUST, "DESIGN.md 4/C14")
+claim("C16",
+      "interval analysis of every NewNineStar argument, sibling input-signature and constant agreement of the duplicated star formulas, declared-inputs and typed-comparison checks",
+      "Decides that every star index is in [0,8] with 9-entry naming tables, that the duplicated hour/year/month star formulas read corresponding inputs and use the same epoch constants, and that each star accessor reads the pillars of its school. The step rules themselves are arithmetic and not decided.",
+      _TRUST, "DESIGN.md 4/C16")
+claim("C20",
+      "path enumeration with interval constraints over all 366 month-day codes (complete for GetXingZuo), symbolic evaluation of the occurrence expression over 31 days, format/argument typing of festival keys",
+      "Decides the zodiac clause completely (exactly one sign per date, contiguous runs in order starting on the conventional days, inputs month and day only) and the key construction of weekday festivals (occurrence = ceil(day/7), last = day+7 > month length, own weekday, well-formed tables). 'Exactly once per year' needs weekday arithmetic and is not decided.",
+      _TRUST, "DESIGN.md 4/C20")
+
+na("C02", "numerical agreement between an astronomical series (plus two packed correction strings) and external oracles over 16,800 lunations; no clause of it is visible in the shape of the code. The only structural conditions nearby (correction strings long enough, table strides, array bounds in LunarYear.compute) are about not panicking and are decided under C08 R08.6 (DESIGN.md 3)")
